@@ -154,6 +154,7 @@ Proof.
       * intros p Hp. unfold upd. destruct (N.eqb_spec p dest); [contradiction|reflexivity].
     + split; [discriminate|split; reflexivity].
     + split; [discriminate|split; reflexivity].
+    + split; [discriminate|split; reflexivity].
     + split; [discriminate|split].
       * intros _ [].
       * intros p Hp. unfold upd. destruct (N.eqb_spec p dest); [contradiction|reflexivity].
